@@ -72,7 +72,7 @@ def S(**kw):
 
 
 N_QUICK = 360
-N_THOROUGH = 6000
+N_THOROUGH = 16000
 
 SPECS = {
     "C01": S(profiles=[("core-mix", 1.0)], projection="PExec",
@@ -345,12 +345,84 @@ def distribution(cases, traces):
                 features=dict(feats))
 
 
-def count_nontrivial(spec, cases, traces):
+def _facts(c, t):
+    ops = list(zip(c["ops"], t["ops"]))
+    fns = {f["id"]: f for f in c["fns"]}
+    execs = [(i, e) for i, (o, ot) in enumerate(ops) for e in ot["events"] if e["ev"] == "exec"]
+    ok = lambda ot: ot["verdict"]["v"] == "ok"
+    root = lambda ot: (ot["verdict"].get("root") or {}).get("k")
+    nsc = 1 + sum(1 for o, _ in ops if o["op"] == "scope")
+    return ops, fns, execs, ok, root, nsc
+
+
+def _has_leaf(params, pred):
+    for p in params or []:
+        if p["k"] == "obj":
+            if _has_leaf(p.get("fields"), pred):
+                return True
+        elif pred(p):
+            return True
+    return False
+
+
+def nontrivial(prop, c, t):
+    ops, fns, execs, ok, root, nsc = _facts(c, t)
+    inv_ok = [i for i, (o, ot) in enumerate(ops) if o["op"] == "invoke" and ok(ot)]
+    dep_exec = [(i, e) for i, e in execs if e.get("role") in ("ctor", "dec")]
+    if prop in ("C01", "C15"):
+        return any(i in inv_ok for i, _ in dep_exec)
+    if prop == "C02":
+        return sum(1 for o, _ in ops if o["op"] == "invoke") >= 2 and bool(dep_exec)
+    if prop == "C03":
+        ran = {e["f"] for _, e in execs}
+        return bool(inv_ok) and any(o["op"] == "provide" and ok(ot) and o["fn"] not in ran for o, ot in ops)
+    if prop == "C04":
+        return any(o["op"] == "invoke" and root(ot) == "missing" for o, ot in ops) or \
+            any(a.get("zero") for _, e in execs for a in (e.get("args") or []))
+    if prop == "C05":
+        return any(root(ot) == "cycle" for _, ot in ops) or \
+            (sum(1 for o, ot in ops if o["op"] == "provide" and ok(ot)) >= 3 and nsc >= 2)
+    if prop in ("C06", "C14"):
+        rej = [i for i, (o, ot) in enumerate(ops) if o["op"] in ("provide", "decorate", "bad") and not ok(ot)]
+        if prop == "C14":
+            return any(o["op"] == "bad" for o, _ in ops)
+        return bool(rej) and any(i > rej[0] for i, _ in execs)
+    if prop == "C07":
+        bad = [i for i, e in execs if e.get("out") in ("err", "panic")]
+        return bool(bad) and any(o["op"] == "invoke" for o, _ in ops[bad[0] + 1:])
+    if prop == "C08":
+        return nsc >= 3 and any(ops[i][0].get("scope", 0) != 0 for i, _ in dep_exec if ops[i][0]["op"] == "invoke")
+    if prop == "C09":
+        named = any(_has_leaf(f.get("params"), lambda p: p.get("name") or p["k"] == "group") for f in fns.values())
+        return any(o["op"] == "provide" and ot["verdict"].get("chain") == ["provide", "invalid"] and root(ot) == "invalid" for o, ot in ops) or (named and bool(dep_exec))
+    if prop == "C10":
+        return any(a.get("isl") and a.get("l") for _, e in execs for a in (e.get("args") or []))
+    if prop == "C11":
+        soft_fns = {f["id"] for f in fns.values() if _has_leaf(f.get("params"), lambda p: p["k"] == "group" and p.get("soft"))}
+        return any(e["f"] in soft_fns for _, e in execs)
+    if prop == "C12":
+        decs = [i for i, e in execs if e.get("role") == "dec"]
+        return bool(decs)
+    if prop == "C13":
+        return any(ot["verdict"]["v"] == "err" for _, ot in ops)
+    if prop == "C16":
+        return sum(1 for o, ot in ops if o["op"] in ("provide", "decorate") and ok(ot)) >= 2 and bool(inv_ok)
+    if prop == "C17":
+        return any(o["op"] == "invoke" for o, _ in ops)
+    if prop == "C20":
+        cb = {f["id"] for f in fns.values() if f.get("callback")}
+        return any(e["f"] in cb for _, e in execs)
+    return len(execs) >= 2 or any(not ok(ot) for _, ot in ops)
+
+
+def count_nontrivial(spec, cases, traces, prop=None):
     seen = set()
     for c, t in zip(cases, traces):
-        execs = sum(1 for ot in t["ops"] for e in ot["events"] if e["ev"] == "exec")
-        errs = sum(1 for ot in t["ops"] if ot["verdict"]["v"] != "ok")
-        if execs >= 2 or errs >= 1:
+        try:
+            nt = nontrivial(prop, c, t)
+        except Exception:
+            nt = False
+        if nt:
             key = json.dumps({"ops": c["ops"], "fns": c["fns"], "config": c["config"]}, sort_keys=True)
             seen.add(hash(key))
     return len(seen)
